@@ -226,6 +226,7 @@ func runC02(c *Check, w *World) {
 		})
 		c.Decide(ok, "R02.3", FuncName(uf), "url-period-default", "provisioning URLs write period 30 for a zero period", "GenerateTOTPURL's default period is "+got+", not 30 under Period == 0", w.Pos(uf.Pos()))
 	}
+	checkDigitsInt(c, w, tb, "R02.4")
 	ruleHistoryIndependence(c, w, tb, ef, "R02.H", w.Funcs(OtpPath, "GenerateTOTP", "ValidateTOTP")...)
 	checkRESTEndpoints(c, w, tb, ef, "R02.REST", "/totp/generate", "/totp/validate")
 	c.Floor("R02.1", 3)
